@@ -197,9 +197,14 @@ type ReportUnresolvedConfig struct {
 // ReportUnresolved generates report for unresolved elements
 func ReportUnresolved(logStream, dbStream io.Reader, ruc ReportUnresolvedConfig) error {
 	return utils.WithResolvedDatabase(dbStream, ruc.ParserConfig, ruc.ResolverConfig,
-		func(nl shared.DBNodeMap) error {
+		func(nl shared.DBNodeMap) (err error) {
 			r := NewUnsolvedReporter(ruc.ReporterConfig, nl)
-			defer r.Flush()
+			defer func() {
+				// a report that could not be written is an error
+				if ferr := r.Flush(); err == nil {
+					err = ferr
+				}
+			}()
 			f := filter.GetIntervalNodeFilter(ruc.FilterConfig)
 			return utils.WalkNodesInStream(logStream, ruc.DateFormat, ruc.ParserConfig, f, r)
 		})
@@ -214,9 +219,14 @@ type ReportQuantityConfig struct {
 }
 
 // ReportQuantity Generates a quantity report
-func ReportQuantity(logStream io.Reader, rqc ReportQuantityConfig) error {
+func ReportQuantity(logStream io.Reader, rqc ReportQuantityConfig) (err error) {
 	r := NewQuantityReporter(rqc.ReporterConfig, rqc.Descending)
-	defer r.Flush()
+	defer func() {
+		// a report that could not be written is an error
+		if ferr := r.Flush(); err == nil {
+			err = ferr
+		}
+	}()
 	f := filter.GetIntervalNodeFilter(rqc.FilterConfig)
 	return utils.WalkNodesInStream(logStream, rqc.DateFormat, rqc.ParserConfig, f, r)
 }
@@ -231,9 +241,14 @@ type ReportTotalsConfig struct {
 
 func ReportTotals(logStream, dbStream io.Reader, rqc ReportTotalsConfig) error {
 	return utils.WithResolvedDatabase(dbStream, rqc.ParserConfig, rqc.ResolverConfig,
-		func(nl shared.DBNodeMap) error {
+		func(nl shared.DBNodeMap) (err error) {
 			r := NewTotalReporter(rqc.ReporterConfig, nl)
-			defer r.Flush()
+			defer func() {
+				// a report that could not be written is an error
+				if ferr := r.Flush(); err == nil {
+					err = ferr
+				}
+			}()
 			f := filter.GetIntervalNodeFilter(rqc.FilterConfig)
 			return utils.WalkNodesInStream(logStream, rqc.DateFormat, rqc.ParserConfig, f, r)
 		})
